@@ -41,6 +41,12 @@ CLAIMS["C19"] = dict(
     technique="Lean 4 proof (ghost-history invariant by induction over op lists) + differential correspondence on the real ring buffer",
     ref="5 C19")
 
+CLAIMS["C04"] = dict(
+    text="Lean theorems for every sequence of arrivals (any type, payload, offset), flushes, reads of any size, reader drop and death, for every buffer/segment configuration: the receive side never panics (flush's unwrap is unreachable); bytes queued for the reader never exceed the configured buffer; the advertised window is at most capacity - queued - parked and 0 once the reader is gone; what add_remove reports as consumed is exactly the run of slots that became contiguous (after it all slots below the front are occupied and the front is a hole), so the acknowledgement number equals the highest sequence number stored in order; the front never moves backwards on arrivals; an occupied slot leaves only through send_front_if_fits, which hands exactly that message to the reader's queue; selective-ACK bit i (i<64) is set iff slot front+1+i is occupied (bit-exact, incl. the byte encoding). Model tied to stream_rx.rs by differential with position-coded packets; implementation-side oracle checks ack honesty, SACK bits, window bound, content, EOF position and lost reader wake-ups.",
+    note="Trusted: Lean kernel, constants translator, harness. Component level: the glue `ack_nr = last_consumed`, `last_consumed += sequence_numbers` and the MSS rounding of rx_window live in stream_dispatch.rs and are proved with the connection model (L2); the correspondence driver mirrors that glue in unwrapped-index form. A partially read message is counted as handed to the reader (not part of the receive buffer).",
+    technique="Lean 4 proof (structural invariant of the slot queue, induction over op lists and loop fuel, bit-level SACK lemma by decide) + differential correspondence",
+    ref="5 C04")
+
 PENDING = {
 }
 
